@@ -13,6 +13,7 @@ ANCHORS = ["src/pylife/materiallaws/rambgood.py", "src/pylife/materiallaws/hooke
            "src/pylife/materiallaws/true_stress_strain.py"]
 SHARDS = {"quick": 4, "thorough": 16}
 WATCHDOG = {"quick": 900, "thorough": 3000}
+SOAK = {"thorough": ['tests/materiallaws', 'tests/strength/fkm_nonlinear']}      # contract soak (pv/contracts_more.py) under the repository's own tests
 REQUIRED_CLASSES = {t: ["ro:n<0.08", "ro:n>0.3", "ro:n>0.5", "ro:zero_in_array", "ro:strain>0.02", "ro:elastic", "ro:negative", "ro:scalar", "ro:array", "ro:fixed_scalar_probes",
                         "hooke:nu<0", "hooke:nu>0.45", "hooke:1d", "hooke:plane_stress", "hooke:plane_strain", "hooke:3d", "true:negative"]
                     for t in ("quick", "thorough")}
